@@ -238,6 +238,29 @@ def run(ctx):
         rc, out, err = core.run_cmd([os.path.join(d, "robsd-report")] + argv, env=env, timeout=20)
         judge("robsd-report", argv, rc, out, err, b"", {"step.csv": f})
         kinds["boundary-int-step"] = kinds.get("boundary-int-step", 0) + 1
+    # ---- short templates whose expansion is long: a field of the step file, a configuration value, a -v value
+    # of 1-70 KB referenced one to three times (output buffers start near the template's size)
+    for L in (1000, 1100, 2100, 5000, 9000, 70000):
+        for reps in (1, 3):
+            t_ = b"x ${name}" * reps + b"\n"
+            f = HEADER + b"1,%s,0,1,0,env.log,root,1700000000,0\n" % (b"n" * L)
+            open(os.path.join(bdir, "step.csv"), "wb").write(f)
+            argv = ["-R", "-f", os.path.join(bdir, "step.csv"), "-i", "1"]
+            rc, out, err = core.run_cmd([os.path.join(d, "robsd-step")] + argv, stdin=t_, env=env, timeout=20)
+            judge("robsd-step -R", argv, rc, out, err, t_, {"step.csv": f[:200] + b"..."})
+            if rc == 0 and out != (b"x " + b"n" * L) * reps + b"\n":
+                ctx.violation("robsd-step -R: a %d byte field referenced %d times does not come out whole (%d bytes of output)" % (L, reps, len(out)),
+                              dict(field_length=L, template=t_.decode()))
+            c = conf["robsd"].replace(b'kernel "GENERIC"', b'kernel "%s"' % (b"K" * L))
+            open(p, "wb").write(c)
+            t_ = b"${kernel} " * reps + b"${a}\n"
+            argv = ["-m", "robsd", "-C", p, "-v", "a=" + "v" * L, "-"]
+            rc, out, err = core.run_cmd([os.path.join(d, "robsd-config")] + argv, stdin=t_, env=env, timeout=20)
+            judge("robsd-config", ["-m", "robsd", "-C", p, "-v", "a=<%d bytes>" % L, "-"], rc, out, err, t_, {"b.conf": c[:300] + b"..."})
+            if rc == 0 and out != (b"K" * L + b" ") * reps + b"v" * L + b"\n":
+                ctx.violation("robsd-config: values of %d bytes referenced %d times do not come out whole (%d bytes of output)" % (L, reps, len(out)),
+                              dict(value_length=L, template=t_.decode()))
+            kinds["long-expansion"] = kinds.get("long-expansion", 0) + 1
     # ---- logs beyond 1 MiB (the buffers of the report and html generators start at 1 MiB / 8 KiB)
     for variant in range(ctx.n(2, 6)):
         # suites named like regress tests (the html generator leaves the fixed steps env/cvs/... out)
